@@ -48,18 +48,68 @@ def rule_lay(S):
 
 def get_index(f, n):
     n = f.strip(n, casts=True)
-    for _ in range(3):   # look through const locals (`void* const block = std::get<1>(elem);`)
+    if n is not None and n['k'] == 'DeclRefExpr' and n.get('dk') == 'binding':
+        # a structured binding: component i of the decomposed object
+        for z in f.all_nodes():
+            if z['k'] == 'DeclStmt':
+                for v in z.get('vars', []):
+                    for i, b in enumerate(v.get('bindings', [])):
+                        if b['id'] == n.get('id') and 'init' in v:
+                            return i, term(f, v['init'], res=True)
+        return None
+    for _ in range(3):   # look through locals that are defined once (`void* const block = std::get<1>(elem);`)
         if n is not None and n['k'] == 'DeclRefExpr':
             from yk.facts import const_local_init
             ini = const_local_init(f, n.get('id'))
+            if ini is None and n.get('dk') == 'var':
+                inits = [v['init'] for z in f.all_nodes() if z['k'] == 'DeclStmt' for v in z.get('vars', [])
+                         if v['id'] == n.get('id') and 'init' in v]
+                ini = f.node(inits[0]) if len(inits) == 1 else None
             if ini is None:
                 break
             n = f.strip(ini, casts=True)
     if n is not None and n['k'] in CALL_KINDS and (n.get('cq') or '') == 'std::get':
         m = re.match(r'std::get<(\d+)', n.get('callee') or '')
         if m:
-            return int(m.group(1)), term(f, call_args(f, n)[0])
+            return int(m.group(1)), term(f, call_args(f, n)[0], res=True)
     return None
+
+
+def rule_copy(S, rule='R-COPY'):
+    """No mutation of a by-value copy of shared node state (finding of seed C02f)."""
+    facts = S.facts()
+    S.rule(rule, 'library code (yakushima::): no local object of type link_or_value, node_version64, border_node or '
+                 'interior_node that was copied by value from a node is mutated (a non-const member function called on '
+                 'it, or assigned to): the update stays in the copy and never reaches the node - e.g. a slot cleared on '
+                 'a copy keeps its retired value pointer in the node, and a later insert into that slot frees it again')
+    SHARED = (Y + 'link_or_value', Y + 'node_version64', Y + 'border_node', Y + 'interior_node')
+    n_f = 0
+    bad = []
+    for f in sorted(facts.functions.values(), key=lambda x: x.fid):
+        if not f.blocks or not f.qname.startswith(Y):
+            continue
+        n_f += 1
+        copies = {}
+        for n in f.all_nodes():
+            if n['k'] == 'DeclStmt':
+                for v in n.get('vars', []):
+                    t = (v.get('type') or '').replace('const ', '').strip()
+                    if t in SHARED and 'init' in v:
+                        copies[v['id']] = (v['name'], short_loc(n), (v.get('type') or '').startswith('const '))
+        if not copies:
+            continue
+        for n in f.all_nodes():
+            if n['k'] == 'CXXMemberCallExpr':
+                r = f.strip(call_recv(f, n), casts=True)
+                if r is not None and r['k'] == 'DeclRefExpr' and r.get('id') in copies and \
+                        not (n.get('callee') or '').rstrip().endswith('const'):
+                    bad.append((f, n, copies[r['id']]))
+    S.ob(rule, 'yakushima::*', 'mutated copies of node state', not bad,
+         'none in %d functions' % n_f if not bad else
+         '%s: `%s` (declared at %s) is a by-value copy of node state and %s is applied to the copy, not to the node' % (
+             bad[0][0].qname, bad[0][2][0], bad[0][2][1], bad[0][1].get('cn')),
+         loc=short_loc(bad[0][1]) if bad else None)
+    S.require(rule, 'library functions examined', n_f, 200)
 
 
 def rule_sz(S):
@@ -189,16 +239,20 @@ def rule_sz(S):
         for x in f2.all_nodes():
             if is_call(x, cq=GCq + '::push_value_container'):
                 a = call_args(f2, x)
-                refs = [y for y in f2.walk(a[0]) if y['k'] == 'DeclRefExpr' and y.get('dk') == 'binding'] if a else []
-                order = [y['name'] for y in refs]
-                src = {y.get('of') for y in refs}
-                decl = None
-                for z in f2.all_nodes():
-                    if z['k'] == 'DeclStmt':
-                        for v in z.get('vars', []):
-                            if v['id'] in src and v.get('bindings'):
-                                decl = [b['name'] for b in v['bindings']]
-                ok = decl is not None and order == decl and len(order) == 3
+                # the queued element {epoch, pointer, size, alignment}: its last three components are components 0, 1, 2
+                # of one get_gc_info() result (structured bindings, std::get, or locals holding them)
+                comps = []
+                if a:
+                    top = f2.strip(a[0], casts=True)
+                    kids = [f2.node(c) for c in (top.get('args') or top.get('ch') or [])] if top is not None else []
+                    if len(kids) == 1:
+                        t1 = f2.strip(kids[0], casts=True)
+                        kids = [f2.node(c) for c in (t1.get('args') or t1.get('ch') or [])] if t1 is not None else []
+                    comps = [get_index(f2, k_) for k_ in kids[-3:]] if len(kids) >= 4 else []
+                order = [c[0] if c else None for c in comps]
+                decl = [0, 1, 2]
+                subj = {str(c[1]) for c in comps if c}
+                ok = order == decl and len(subj) == 1 and 'get_gc_info' in next(iter(subj))
                 n += 1
                 S.ob('R-SZ', f2.qname + ('<%s>' % f2.targs if f2.targs else ''), 'retire at ' + short_loc(x), ok,
                      'the GC triple is queued in (pointer, size, alignment) order' if ok else
@@ -360,9 +414,13 @@ def run(S):
     rule_sz(S)
     rule_imm(S)
     rule_one(S)
+    rule_copy(S)
     from checks.C01 import rule_var
     rule_var(S)
     rule_fslot(S)
     # mechanisms this property rests on (checks/shared.py)
     from checks import shared
     shared.gc_safety(S)
+    # pointer-typed (inline) values round-trip by value, the all-zero one included (shared with C09)
+    from checks.C09 import rule_nul
+    rule_nul(S)
